@@ -29,8 +29,8 @@ PID = "C07"
 META = {
     "cat": "exploration",
     "text": "TLC enumerates every well-typed expression tree with up to 2 (quick) / 3 (thorough) operators over the C/C++ operator table "
-            "(all operators at size <= 1, one or two representatives per precedence level above) plus a seeded sample of trees with 3-6 "
-            "operators, prints each with minimal parentheses and computes the expected AST edges in cppcheck's convention; the real binary "
+            "(all operators at size <= 1 and in all chains of two unary-level operators, one or two representatives per precedence level above) "
+            "plus a seeded sample of trees with 3-11 operators, prints each with minimal parentheses and computes the expected AST edges in cppcheck's convention; the real binary "
             "parses every statement in C and in C++ mode and TLC compares the dumped edges with the expectation. The spec is guarded by laws "
             "checked on the same cases (a reference ISO-grammar parser inverts the printer; printing is injective) and by clang as second "
             "witness. The property quantifies over all expressions, so bounded-exhaustive enumeration plus sampling is the level reached.",
@@ -78,14 +78,13 @@ def plan(tier):
     if tier == "quick":
         return [small + [{"kind": "big", "pf": "rep", "n": 150}],
                 [exact("rep1", 2, ["asg"])]]
+    ctx2 = ["asg", "if", "init"]
     parts = [small,
-             [exact("rep", 2, ALL_CTX, bins(REP_BIN[:4]))], [exact("rep", 2, ALL_CTX, bins(REP_BIN[4:8]))], [exact("rep", 2, ALL_CTX, bins(REP_BIN[8:]))],
-             [exact("rep", 2, ALL_CTX, ["cond", "pcond"] + OTHER_FAMS)]]
-    for k in range(0, len(REP1_BIN), 2):
-        parts.append([exact("rep1", 3, ["asg"], bins(REP1_BIN[k:k + 2]))])
-    parts.append([exact("rep1", 3, ["asg"], ["cond", "pcond"])])
-    parts.append([exact("rep1", 3, ["asg"], OTHER_FAMS)])
-    parts.append([{"kind": "big", "pf": "rep", "n": 4000}])
+             [exact("rep", 2, ctx2, bins(REP_BIN[:4]))], [exact("rep", 2, ctx2, bins(REP_BIN[4:8]))], [exact("rep", 2, ctx2, bins(REP_BIN[8:]))],
+             [exact("rep", 2, ctx2, ["cond", "pcond"] + OTHER_FAMS)],
+             [exact("rep0", 3, ["asg"], bins(REP1_BIN[:5]))], [exact("rep0", 3, ["asg"], bins(REP1_BIN[5:]))],
+             [exact("rep0", 3, ["asg"], ["cond", "pcond"] + OTHER_FAMS)],
+             [{"kind": "big", "pf": "rep", "n": 2000}]]
     return parts
 
 
